@@ -10,6 +10,8 @@ func checkC10(c *Check) {
 	c.Rule = "TLC (RulesGen.tla) enumerates every maximal behaviour of the validator model over the structural alphabet up to the length bound, pruning at the first rejected event; each is replayed event by event into rules.NewRules and accept/reject compared at every step. non-trivial = behaviour contains a container, record, marker, reference or chunked array; distinct = distinct index sequences"
 	c.Assumptions = []string{"abs/concretiser of harness/abs.go", "TLC", "bounded length and alphabet; rejections for reasons owned by other properties (duplicate keys, markers, limits, arrays) are pruned from this run"}
 	reasons := []string{"structure"}
+	mcLen := map[string]int{"quick": 10, "thorough": 13}[c.Tier]
+	runRulesMC(c, "AlphaStructA", mcLen, Lim{Depth: 3, Objs: 7, ABytes: 1 << 30, IDLen: 1000, Refs: 1}, "", "structure")
 	n1, n2 := 5, 6
 	if c.Tier == "thorough" {
 		n1, n2 = 7, 8
